@@ -16,9 +16,9 @@ META = dict(
     functions_encoded=['control.OrderDSCForBuild', 'control.ParseDsc (composition: the .dsc text is parsed first)', '(*Dependency).GetPossibilities', '(*ArchSet).Matches', '(*Arch).Is',
                        'topsort.NewNetwork/AddNode/AddEdge/Sort/sortNodes/sortSingleNodes (from SSA)', 'control.Unmarshal over DSC (reflect model)'],
     stubs=['reflect model', 'strings models'],
-    bounds={'quick': 'every build-dependency graph on 3 sources (all 64 edge sets, cyclic or not), each source with 2 binaries listed as "Binary: a, b"; each edge carried in turn by Build-Depends, Build-Depends-Arch or Build-Depends-Indep, plain / with an applicable [amd64] list / as the second alternative behind a non-applicable one; decoys that must be ignored: unknown names, substvars, later alternatives, alternatives restricted to other architectures; source and binary names with symbolic characters',
+    bounds={'quick': 'every build-dependency graph on 3 sources (all 64 edge sets, cyclic or not, plus 19 of them with a self-dependency added), each source with 2 binaries listed as "Binary: a, b"; each edge carried in turn by Build-Depends, Build-Depends-Arch or Build-Depends-Indep, plain / with an applicable [amd64] list / as the second alternative behind a non-applicable one / behind a substvar; decoys that must be ignored: unknown names, substvars, later alternatives, alternatives restricted to other architectures; source and binary names with symbolic characters',
             'thorough': 'every graph on 4 sources whose edge set has at most 5 edges (a sample of the larger ones), and 3 sources with 2-character symbolic names'},
-    outside_claim=['more than 4 sources', 'two sources building the same binary (assumed away)', 'a source that build-depends on its own binary'],
+    outside_claim=['more than 4 sources', 'two sources building the same binary (assumed away)'],
     assumptions=['the build architecture is amd64'])
 
 
@@ -34,11 +34,16 @@ def has_cycle(n, edges):
 def graphs(n, tier):
     pairs = [(i, j) for i in range(n) for j in range(n) if i != j]
     out = []
+    k = 0
     for r in range(len(pairs) + 1):
         for es in itertools.combinations(pairs, r):
             if n == 4 and (r > 5 or (r > 2 and hash(es) % 7)):
                 continue
             out.append(es)
+            # a source that build-depends on one of its own binaries is a cycle of length one
+            k += 1
+            if n == 3 and (k % 4 == 0 or r == 0):
+                out.append(es + ((k % 3, k % 3),))
     return out
 
 
@@ -87,13 +92,15 @@ def run_job(env, job):
                 continue
             b = bins[i][(e_idx + var) % 2]
             carrier = keys[(e_idx + var) % 3]
-            style = (e_idx + 2 * var) % 3
+            style = (e_idx + 2 * var) % 4
             if style == 0:
                 txt = b
             elif style == 1:
                 txt = b + tuple(b' (>= 2) [amd64 i386]')
-            else:
+            elif style == 2:
                 txt = unknown + tuple(b' [!amd64] | ') + b + tuple(b' | ') + unknown
+            else:
+                txt = tuple(b'${local:Depends} | ') + b
             fields[carrier].append(txt)
         d.field(b'Format', b'3.0 (quilt)')
         d.field(b'Source', srcs[j])
